@@ -186,8 +186,30 @@ def real_schema(case: dict) -> Tuple[Optional[str], dict, List[str]]:
         except jsonschema.exceptions.SchemaError as e:
             fails.append("not a valid Draft 2020-12 schema: " + str(e.message)[:120])
     out["jsonOnly"] = not nonjson
+    if case["named"] is not None and isinstance(s, dict):
+        # "recursive validators terminate by emitting a reference to the named schema": every `$ref` of the named
+        # schema is <ref_location><name> of *this* call
+        want = "".join(map(chr, case["named"]["ref"])) + "".join(map(chr, case["named"]["name"]))
+        for r_ in all_refs(s):
+            if r_ != want:
+                fails.append(f"a $ref of the named schema is {r_!r}, not {want!r} (the location and name of this call)")
+                break
     fails += bare_predicates(v, s if case["named"] is None else list(s.values())[0], fails)
     return None, out, fails
+
+
+def all_refs(j: Any) -> List[Any]:
+    out: List[Any] = []
+    if isinstance(j, dict):
+        for k, x in j.items():
+            if k == "$ref" and isinstance(x, str):      # (a *property* called "$ref" maps to a schema, not a string)
+                out.append(x)
+            else:
+                out += all_refs(x)
+    elif isinstance(j, (list, tuple)):
+        for x in j:
+            out += all_refs(x)
+    return out
 
 
 def bare_predicates(v: Any, body: Any, known: List[str]) -> List[str]:
